@@ -733,7 +733,40 @@ def r02_11(run):
     run.count("un-permutations on gradient return paths", n)
 
 
+def r02_13(run):
+    """scalar-or-sequence classification of a recorded option: a 0-d integer array (a legal scalar axis / shift for NumPy) *has* `__iter__` but
+    cannot be iterated, so `hasattr(x, "__iter__")` alone sends it down the sequence branch -- the forward kernel accepts it and the backward pass
+    raises TypeError.  In operation code every such test is paired, in the same condition, with a rank test of the same value (np.ndim(x))."""
+    n = 0
+    seen = set()
+    fns = []
+    for c in run.project.operation_classes() + [run.project.cls("mygrad.operation_base.Operation")]:
+        for m in c.methods.values():
+            if m.qualname not in seen:
+                seen.add(m.qualname)
+                fns.append(m)
+    for m in fns:
+        for k in own_nodes(m.node):
+            if not (isinstance(k, ast.Call) and dotted(k.func) == "hasattr" and len(k.args) == 2 and isinstance(k.args[1], ast.Constant)
+                    and k.args[1].value == "__iter__"):
+                continue
+            n += 1
+            subj = norm(k.args[0])
+            top = k
+            while isinstance(getattr(top, "_parent", None), (ast.BoolOp, ast.UnaryOp, ast.Compare)):
+                top = top._parent
+            paired = any(isinstance(x, ast.Call) and (dotted(x.func) or "").split(".")[-1] == "ndim" and x.args and norm(x.args[0]) == subj
+                         for x in ast.walk(top)) or any(isinstance(x, ast.Attribute) and x.attr == "ndim" and norm(x.value) == subj for x in ast.walk(top))
+            run.ob("R02.13", loc(m, k), m.short, f"`hasattr({subj}, '__iter__')` is paired with a rank test of `{subj}`", paired,
+                   f"condition `{norm(top)[:70]}`" if paired else
+                   f"`{norm(top)[:60]}` treats a 0-d integer array as a sequence: NumPy accepts it as a scalar option, the op records it, and "
+                   f"iterating it in the backward pass raises TypeError")
+    run.count("iterability tests of options in operation code", n)
+
+
 def check(run):
+    run.rule("R02.13", "operation code tells scalar options from sequences by rank, not by `__iter__` alone (0-d arrays)", floor=2)
+    run.do(r02_13)
     run.rule("R02.1", "derivative-table agreement in the term domain: for every closed-form op and operand k, the symbolic term of "
              "backward_var|index=k equals g * d(forward term)/dx_k at exact sample points of the kernel's domain (and simplifies to 0 where "
              "sympy can show it); documented conventions at non-differentiable points", floor=35)
